@@ -86,13 +86,19 @@ fn names(n: usize, dir: &str, ext: &str, r: &mut Rng) -> Vec<String> {
         .collect()
 }
 
-/// One liquid layer: rectangle, liquid vertex format 0..3 (the builder API admits all four
-/// VertexDataArray variants), optional exists bitmap, optional vertex data.
-fn water_layer(variant: usize, lvf: u16, r: &mut Rng) -> (Mh2oInstance, Option<VertexDataArray>, Option<u64>) {
-    let (xo, yo, w, h) = match variant % 4 {
-        0 | 1 => (0u8, 0u8, 8u8, 8u8),
-        2 => (1, 2, 2, 3),
-        _ => (3, 0, 5, 8),
+/// One liquid layer from a configuration index k in 0..64 (the product the specification enumerates,
+/// Gen_AdtLayout LayerCfg): k = bm + 2*vd + 4*lvf + 16*rect with
+///   bm   exists bitmap on/off        vd  per-vertex data on/off      lvf  liquid vertex format 0..3
+///   rect 0: 8x8@(0,0)  1: 2x3@(1,2)  2: 5x8@(3,0)  3: 1x1@(7,7)
+/// Bitmap contents are random within the rectangle's bit count, never all-zero and (for >= 2 bits)
+/// never all-ones, so a lost / overwritten / shifted bitmap changes the token.
+fn water_layer(k: usize, r: &mut Rng) -> (Mh2oInstance, Option<VertexDataArray>, Option<u64>) {
+    let (bm_on, vd_on, lvf, rect) = (k % 2 == 1, (k / 2) % 2 == 1, ((k / 4) % 4) as u16, (k / 16) % 4);
+    let (xo, yo, w, h) = match rect {
+        0 => (0u8, 0u8, 8u8, 8u8),
+        1 => (1, 2, 2, 3),
+        2 => (3, 0, 5, 8),
+        _ => (7, 7, 1, 1),
     };
     let inst = Mh2oInstance {
         liquid_type: 1 + r.below(20) as u16,
@@ -106,58 +112,70 @@ fn water_layer(variant: usize, lvf: u16, r: &mut Rng) -> (Mh2oInstance, Option<V
         offset_exists_bitmap: 0,
         offset_vertex_data: 0,
     };
-    if variant % 4 == 0 {
-        return (inst, None, None);
-    }
     let cells: Vec<usize> = (yo as usize..=(yo + h) as usize).flat_map(|z| (xo as usize..=(xo + w) as usize).map(move |x| z * 9 + x)).collect();
     let uv = |r: &mut Rng| UvMapEntry { u: r.next_u32() as u16, v: r.next_u32() as u16 };
-    let vd = match lvf {
-        0 => {
-            let mut g: [Option<HeightDepthVertex>; 81] = [None; 81];
-            for i in &cells {
-                g[*i] = Some(HeightDepthVertex { height: fval(r), depth: r.byte() });
+    let vd = if !vd_on {
+        None
+    } else {
+        Some(match lvf {
+            0 => {
+                let mut g: [Option<HeightDepthVertex>; 81] = [None; 81];
+                for i in &cells {
+                    g[*i] = Some(HeightDepthVertex { height: fval(r), depth: r.byte() });
+                }
+                VertexDataArray::HeightDepth(Box::new(g))
             }
-            VertexDataArray::HeightDepth(Box::new(g))
-        }
-        1 => {
-            let mut g: [Option<HeightUvVertex>; 81] = [None; 81];
-            for i in &cells {
-                g[*i] = Some(HeightUvVertex { height: fval(r), uv: uv(r) });
+            1 => {
+                let mut g: [Option<HeightUvVertex>; 81] = [None; 81];
+                for i in &cells {
+                    g[*i] = Some(HeightUvVertex { height: fval(r), uv: uv(r) });
+                }
+                VertexDataArray::HeightUv(Box::new(g))
             }
-            VertexDataArray::HeightUv(Box::new(g))
-        }
-        2 => {
-            let mut g: [Option<DepthOnlyVertex>; 81] = [None; 81];
-            for i in &cells {
-                g[*i] = Some(DepthOnlyVertex { depth: r.byte() });
+            2 => {
+                let mut g: [Option<DepthOnlyVertex>; 81] = [None; 81];
+                for i in &cells {
+                    g[*i] = Some(DepthOnlyVertex { depth: r.byte() });
+                }
+                VertexDataArray::DepthOnly(Box::new(g))
             }
-            VertexDataArray::DepthOnly(Box::new(g))
-        }
-        _ => {
-            let mut g: [Option<HeightUvDepthVertex>; 81] = [None; 81];
-            for i in &cells {
-                g[*i] = Some(HeightUvDepthVertex { height: fval(r), uv: uv(r), depth: r.byte() });
+            _ => {
+                let mut g: [Option<HeightUvDepthVertex>; 81] = [None; 81];
+                for i in &cells {
+                    g[*i] = Some(HeightUvDepthVertex { height: fval(r), uv: uv(r), depth: r.byte() });
+                }
+                VertexDataArray::HeightUvDepth(Box::new(g))
             }
-            VertexDataArray::HeightUvDepth(Box::new(g))
-        }
+        })
     };
     let bits = (w as u32) * (h as u32);
     let mask = if bits >= 64 { u64::MAX } else { (1u64 << bits) - 1 };
-    // the last layer variant keeps full coverage (no bitmap) but has vertex data
-    let bm = if variant % 4 == 3 { None } else { Some((r.next_u64() | 1) & mask) };
-    (inst, Some(vd), bm)
+    let bm = if !bm_on {
+        None
+    } else {
+        let mut v = r.next_u64() & mask;
+        while v == 0 || (bits >= 2 && v == mask) {
+            v = r.next_u64() & mask;
+        }
+        Some(v)
+    };
+    (inst, vd, bm)
 }
 
-fn water_entry(ci: usize, layers: usize, r: &mut Rng) -> Mh2oEntry {
+/// Water of chunk `ci`: `layers` layers; layer l uses configuration (wbase + 5*ci + 21*l) mod 64, so a
+/// tile with water on all 256 chunks carries every element of the product several times and a tile
+/// with water on one chunk carries exactly the configurations the case names.
+fn water_entry(ci: usize, slot: usize, layers: usize, wbase: usize, r: &mut Rng) -> Mh2oEntry {
     let mut instances = Vec::new();
     let mut vertex_data = Vec::new();
     let mut exists_bitmaps = Vec::new();
     for l in 0..layers {
-        let (i, v, b) = water_layer(ci + l + r.below(4) as usize, ((ci + l) as u16 + r.below(4) as u16) % 4, r);
+        let (i, v, b) = water_layer((wbase + 5 * slot + 21 * l) % 64, r);
         instances.push(i);
         vertex_data.push(v);
         exists_bitmaps.push(b);
     }
+    let _ = ci;
     Mh2oEntry {
         header: Mh2oHeader { offset_instances: 0, layer_count: layers as u32, offset_attributes: 0 },
         instances,
@@ -359,8 +377,9 @@ fn make_inputs(c: &Value, case: &str) -> Inputs {
                 "all" => (0..256).collect(),
                 o => tool_error(&format!("unknown water class {o}")),
             };
-            for ci in which {
-                entries[ci] = water_entry(ci, wlay, &mut r);
+            let wbase = gi(c, "wbase") as usize;
+            for (slot, ci) in which.into_iter().enumerate() {
+                entries[ci] = water_entry(ci, slot, wlay, wbase, &mut r);
             }
             Some(Mh2oChunk { entries })
         }
@@ -469,11 +488,13 @@ fn builder_from(i: &Inputs) -> AdtBuilder {
 // content projections (the same function is applied to the builder inputs and to parsed tiles);
 // offsets / sizes that only describe the layout are projected away
 // ------------------------------------------------------------------------------------------
-fn proj_mh2o(w: &Option<Mh2oChunk>) -> String {
+/// MH2O content, four projections folded over chunks and layers (layout offsets projected away):
+/// "wins" instance header fields, "wbm" exists bitmaps, "wvd" vertex data, "wattr" attributes.
+fn proj_mh2o(w: &Option<Mh2oChunk>) -> [String; 4] {
     match w {
-        None => "None".into(),
+        None => ["None".into(), "None".into(), "None".into(), "None".into()],
         Some(ch) => {
-            let mut s = String::new();
+            let mut o = [String::new(), String::new(), String::new(), String::new()];
             for (i, e) in ch.entries.iter().enumerate() {
                 if e.instances.is_empty() && e.attributes.is_none() {
                     continue;
@@ -483,9 +504,13 @@ fn proj_mh2o(w: &Option<Mh2oChunk>) -> String {
                     .iter()
                     .map(|x| (x.liquid_type, x.liquid_object_or_lvf, x.min_height_level, x.max_height_level, x.x_offset, x.y_offset, x.width, x.height))
                     .collect();
-                s.push_str(&format!("[{i}:{:?}|{:?}|{:?}|{:?}]", inst, e.vertex_data, e.exists_bitmaps, e.attributes));
+                o[0].push_str(&format!("[{i}:{:?}]", inst));
+                o[1].push_str(&format!("[{i}:{:?}]", e.exists_bitmaps));
+                o[2].push_str(&format!("[{i}:{:?}]", e.vertex_data));
+                o[3].push_str(&format!("[{i}:{:?}]", e.attributes));
             }
-            format!("Some({})|n={}", s, ch.entries.len())
+            o[0].push_str(&format!("|n={}", ch.entries.len()));
+            o
         }
     }
 }
@@ -518,7 +543,11 @@ fn sections(
     m.insert("ddf", dtok(&ddf));
     m.insert("modf", dtok(&modf));
     m.insert("mfbo", dtok(mfbo));
-    m.insert("mh2o", tok(proj_mh2o(mh2o).as_bytes()));
+    let pw = proj_mh2o(mh2o);
+    m.insert("wins", tok(pw[0].as_bytes()));
+    m.insert("wbm", tok(pw[1].as_bytes()));
+    m.insert("wvd", tok(pw[2].as_bytes()));
+    m.insert("wattr", tok(pw[3].as_bytes()));
     m.insert("mtxf", dtok(mtxf));
     m.insert("mamp", dtok(mamp));
     m.insert("mtxp", dtok(mtxp));
@@ -582,7 +611,7 @@ fn sec_json(m: &BTreeMap<&'static str, String>) -> Value {
 }
 fn sec_empty() -> Value {
     let keys = [
-        "tex", "mdl", "wmo", "ddf", "modf", "mfbo", "mh2o", "mtxf", "mamp", "mtxp", "bmesh", "khdr", "mcvt", "mcnr", "mcly", "mcrf", "mcal",
+        "tex", "mdl", "wmo", "ddf", "modf", "mfbo", "wins", "wbm", "wvd", "wattr", "mtxf", "mamp", "mtxp", "bmesh", "khdr", "mcvt", "mcnr", "mcly", "mcrf", "mcal",
         "mcsh", "mccv", "mclq", "mcse", "mclv", "xsub", "mtxf0", "none",
     ];
     Value::Object(keys.iter().map(|k| (k.to_string(), Value::String("-".into()))).collect())
